@@ -1632,7 +1632,7 @@ fn main() {
     let mut report = Report::new("C10");
     let threads = std::thread::available_parallelism().map(|n| n.get()).unwrap_or(8).min(16);
     let max_steps = env.budget(8, 12);
-    let n_random = env.budget(2000, 20_000);
+    let n_random = env.budget(2000, 120_000);
     let exh_len = env.budget(3, 4);
 
     // ---- the jobs: exhaustive short histories, then random histories (one PRNG)
